@@ -29,11 +29,12 @@ type SpecDB struct {
 	ifCF   map[string]*ContractFile
 	ufs    map[string]Sort
 	mirror []string // notes about /repo mirror state
+	conflicts map[string]string // "ext <key>" / "iface <key>" -> description of a conflicting duplicate declaration
 }
 
 func loadSpecDB() (*SpecDB, error) {
 	db := &SpecDB{files: map[string]*ContractFile{}, ext: map[string]*FnSpec{}, extCF: map[string]*ContractFile{},
-		iface: map[string]*FnSpec{}, ifCF: map[string]*ContractFile{}, ufs: map[string]Sort{}}
+		iface: map[string]*FnSpec{}, ifCF: map[string]*ContractFile{}, ufs: map[string]Sort{}, conflicts: map[string]string{}}
 	var paths []string
 	filepath.Walk(contractsDir, func(p string, info os.FileInfo, err error) error {
 		if err == nil && !info.IsDir() && isContractFile(filepath.Base(p)) {
@@ -87,13 +88,16 @@ func loadSpecDB() (*SpecDB, error) {
 			switch s.Kind {
 			case "ext":
 				if old, dup := db.ext[s.Key]; dup && old != s && specSig(old) != specSig(s) {
-					return nil, fmt.Errorf("%s: ext %s is declared with a different contract in %s", p, s.Key, db.extCF[s.Key].Pkg)
+					// a conflict only poisons the checks that use this contract (see conflictFor), not the whole database
+					db.conflicts["ext "+s.Key] = fmt.Sprintf("ext %s is declared with different contracts in %s and %s", s.Key, shortPkg(db.extCF[s.Key].Pkg), shortPkg(cf.Pkg))
+					continue
 				}
 				db.ext[s.Key] = s
 				db.extCF[s.Key] = cf
 			case "iface":
 				if old, dup := db.iface[s.Key]; dup && old != s && specSig(old) != specSig(s) {
-					return nil, fmt.Errorf("%s: iface %s is declared with a different contract in %s", p, s.Key, db.ifCF[s.Key].Pkg)
+					db.conflicts["iface "+s.Key] = fmt.Sprintf("iface %s is declared with different contracts in %s and %s", s.Key, shortPkg(db.ifCF[s.Key].Pkg), shortPkg(cf.Pkg))
+					continue
 				}
 				db.iface[s.Key] = s
 				db.ifCF[s.Key] = cf
@@ -140,6 +144,12 @@ func (db *SpecDB) fnSpec(fn *ssa.Function) (*FnSpec, *ContractFile) {
 		}
 	}
 	full := pkgPath + "." + key
+	if msg, bad := db.conflicts["ext "+full]; bad {
+		unsup("conflicting contracts: %s", msg)
+	}
+	if msg, bad := db.conflicts["ext "+shortPkg(pkgPath)+"."+key]; bad {
+		unsup("conflicting contracts: %s", msg)
+	}
 	if s, ok := db.ext[full]; ok {
 		return s, db.extCF[full]
 	}
@@ -163,6 +173,9 @@ func (db *SpecDB) ifaceSpec(t types.Type, method string) (*FnSpec, *ContractFile
 		return nil, nil
 	}
 	key := n.Obj().Pkg().Name() + "." + n.Obj().Name() + "." + method
+	if msg, bad := db.conflicts["iface "+key]; bad {
+		unsup("conflicting contracts: %s", msg)
+	}
 	if s, ok := db.iface[key]; ok {
 		return s, db.ifCF[key]
 	}
